@@ -35,6 +35,7 @@ RULE = ("real files in a fresh temporary directory. (rt) 3-d fields, 1-5 compone
         "behave like extend_scalar=False (D24, fixed). non-trivial = at least two axes with >= 2 cells "
         "and non-constant data, or a damaged/foreign file")
 TRUSTED = ["harness/c09.py (independent OVF reader/writer, generators, comparators) + driver JSON glue",
+           "Python's float() / repr() on header numbers, handed to the byte-level model as tables",
            "Python repr/float/int and pandas csv writer/reader are the fmt/parse pair (header numbers, text payload)",
            "struct / numpy.tobytes / numpy.fromfile are the byte codecs; the model's IEEE-754 codec on rationals is "
            "validated bit for bit against them on every run",
@@ -45,11 +46,22 @@ ASSUMPTIONS = ["labels are attribute names (field.<label>): word characters incl
                "oracle; every other unit string is demanded to round-trip",
                "subregions are exercised on dyadic meshes of moderate scale (alignment at extreme scales is C14 / D18)",
                "D19 (short data block still followed by the footer) is outside the quantifier: observed, not flagged"]
-UNPROVED = ["bit identity for bin8 / float32 rounding for bin4 / 1e-9 for text: structural part proved on abstract value "
-            "tokens and an abstract lawful codec, numerical part observed on the real bytes",
-            "truncation inside a header line (mid-line cut) is modelled only through the harness's line parser; the theorem "
-            "covers cuts between header lines and every cut inside the binary data block"]
-BUDGET = {"quick": 85, "thorough": 900}
+UNPROVED = ["text representation at the byte level: the header bytes of a txt file are modelled and proved read back "
+            "(written_bytes_read_txt); the rows are written by pandas.to_csv and parsed by pandas.read_csv, which stay the "
+            "trusted fmt/parse pair (the property grants 1e-9 relative); every truncation point is proved for binary "
+            "files only, as the property states it",
+            "header numbers: Python's repr / float are a parameter of the byte-level model (NumIO.Lawful: float(repr x) = x, "
+            "no ':' or white space in the text; satisfiable: toyNum) - the driver is given Python's own results as tables",
+            "the model's text helpers follow Python's str methods on ASCII white space (' ', \\t, \\r, \\n) and ASCII case "
+            "only; headers with other Unicode white space or with non-ASCII characters whose lower() is ASCII are not sent "
+            "to the byte-level lexer comparison",
+            "the IEEE codec is proved lawful on binary64 VALUES (rationals); the sign of zero and NaN payloads are not "
+            "values of the model and are compared on the real bytes only; narrow32 = np.float32 rounding is the model's "
+            "definition of float32 rounding, validated bit for bit on every run",
+            "foreign (reference-writer) files are proved read at the structured level (reader_v1_v2, reader_v1_v2_txt); at the "
+            "byte level only their header cuts are covered (cut_in_header_rejected needs FileOk, which the written header "
+            "is proved to satisfy)"]
+BUDGET = {"quick": 110, "thorough": 900}
 
 MAGIC = {4: 1234567.0, 8: 123456789012345.0}
 NUM_KEYS = {a + s for a in "xyz" for s in ("min", "max", "base", "stepsize")}
@@ -139,10 +151,111 @@ def structure(raw):
             footer.append(s)
         elif s.strip():
             try:
-                rows.append([Q(float(t)) for t in s.split()])
+                # a blank at the end of a row (mumax3) is one more, empty, column for the csv reader (sep=" "):
+                # the model's rows carry it as an extra entry, as pandas' frame does (NaN there, 0 here)
+                rows.append([Q(float(t)) for t in s.split()] + ([Q(0)] if s[-1:] in (" ", "\t") else []))
             except ValueError:   # not numbers at all (binary junk after a non-binary data line)
                 return dict(first=first, lines=out, body=dict(text=[], footer=[])), data_off
     return dict(first=first, lines=out, body=dict(text=rows, footer=footer)), data_off
+
+
+def lex_py(raw):
+    """The header loop on bytes, written with Python's own bytes/str methods (decode, lower, startswith,
+    split, strip): the reference for the model's byte-level lexer (`lexBytes`).  Returns
+    ('ok', dict(first=[bytes], lines=[...], data=None | dict(words, rest=len))) or ('err', why)."""
+    if not raw:
+        return "err", "empty"
+    j = raw.find(b"\n")
+    first = raw if j < 0 else raw[:j]
+    pos = len(raw) if j < 0 else j + 1
+    lines, data = [], None
+    while pos < len(raw):
+        j = raw.find(b"\n", pos)
+        line, nxt = (raw[pos:], len(raw)) if j < 0 else (raw[pos:j], j + 1)
+        try:
+            text = line.decode("utf-8")
+        except UnicodeDecodeError:
+            return "err", "decode"
+        if text.lower().startswith("# begin: data"):
+            data = dict(words=text.split()[3:], rest=len(raw) - nxt)
+            break
+        info = text[1:].split(":")
+        if len(info) > 1:
+            lines.append(["kv", info[0].strip(), info[1].strip()])
+        else:
+            lines.append(["other"])
+        pos = nxt
+    return "ok", dict(first=list(first), lines=lines, data=data)
+
+
+def py_ws_safe(raw):
+    """True when Python's str.split/strip/lower agree with the model's ASCII reading on this header: no white
+    space outside ' \\t\\r\\n' and no non-ASCII character whose lower() is ASCII (the model documents both limits)"""
+    try:
+        text = raw.decode("utf-8")
+    except UnicodeDecodeError:
+        text = raw.decode("utf-8", errors="ignore")
+    for ch in set(text):
+        if ch.isspace() and ch not in " \t\r\n":
+            return False
+        if ord(ch) > 127 and any(ord(x) < 128 for x in ch.lower()):
+            return False
+    return True
+
+
+def float_table(raw):
+    """Python's float() on every header value the reader may convert: [[text, rational], ...] (finite only)"""
+    st, lx = lex_py(raw)
+    out, seen = [], set()
+    if st != "ok":
+        return out
+    for l in lx["lines"]:
+        if l[0] == "kv" and l[1] in NUM_KEYS and l[2] not in seen:
+            seen.add(l[2])
+            try:
+                v = float(l[2])
+            except ValueError:
+                continue
+            if np.isfinite(v):
+                out.append([l[2], Q(v)])
+    return out
+
+
+def readbytes_req(raw, st, side=None, reserved=()):
+    """request for the model's byte-level reader on the bytes of a file (`st` = structure(raw)[0])"""
+    req = dict(op="readbytes", bytes=list(raw), floats=float_table(raw), side=side, reserved=list(reserved))
+    if "text" in st["body"]:
+        req["text"] = dict(rows=st["body"]["text"], footer=st["body"]["footer"])
+    return req
+
+
+def exact_fmt_table(fj):
+    """When every float operation behind the header numbers is exact (region corners, edge = pmax - pmin,
+    cell = edge / n, cell / 2, pmin + cell / 2 all representable), the table rational -> repr(float) of the
+    header numbers; else None.  With it the model writes the file down to its bytes."""
+    pmin = [F(x) for x in fj["mesh"]["region"]["pmin"]]
+    pmax = [F(x) for x in fj["mesh"]["region"]["pmax"]]
+    n = fj["mesh"]["n"]
+    if len(pmin) != 3 or len(n) != 3 or any(k <= 0 for k in n):
+        return None
+    vals = []
+    for a in range(3):
+        edge = pmax[a] - pmin[a]
+        cell = edge / n[a]
+        base = pmin[a] + cell / 2
+        for x in (pmin[a], pmax[a], edge, cell, cell / 2, base):
+            try:
+                if Fraction(float(x)) != x:
+                    return None
+            except OverflowError:
+                return None
+        vals += [pmin[a], pmax[a], cell, base]
+    out, seen = [], set()
+    for x in vals:
+        if x not in seen:
+            seen.add(x)
+            out.append([repr(float(x)), Q(x)])
+    return out
 
 
 class FormatError(Exception):
@@ -411,6 +524,7 @@ SMALL_FILES = [
     dict(src="foreign", v2=False, w=4, nodes=[2, 1, 1], vd=3),
     dict(src="foreign", v2=False, w=8, nodes=[1, 1, 2], vd=3),
     dict(src="foreign", v2=True, w=8, nodes=[1, 2, 1], vd=2),
+    dict(src="real", n=[1, 1, 2], nvdim=2, rep="bin8", labels=["ä", "b_Ω"], unit="µT", meshunit="µm"),
 ]
 
 
@@ -432,7 +546,7 @@ def cases(rng, tier):
     # ---- exhaustive fault streams on small binary files
     for fi, spec in enumerate(SMALL_FILES):
         raw, _ = small_file(spec)
-        step = 1 if (not quick or fi < 3) else 7
+        step = 1 if (not quick or fi < 3 or spec.get("meshunit")) else 7
         for t in range(0, len(raw) + 1, step):
             yield dict(kind="trunc", file=spec, t=t)
     for spec in SMALL_FILES[:2] + SMALL_FILES[2:4]:
@@ -513,7 +627,11 @@ def small_file(spec):
     if key not in _SMALL_CACHE:
         if spec["src"] == "real":
             n = spec["n"]
-            mesh = df.Mesh(p1=(0, 0, 0), p2=(float(n[0]), float(2 * n[1]), float(0.5 * n[2])), n=n)
+            if spec.get("meshunit"):
+                mesh = df.Mesh(region=df.Region(p1=(0, 0, 0), p2=(float(n[0]), float(2 * n[1]), float(0.5 * n[2])),
+                                                units=[spec["meshunit"]] * 3), n=n)
+            else:
+                mesh = df.Mesh(p1=(0, 0, 0), p2=(float(n[0]), float(2 * n[1]), float(0.5 * n[2])), n=n)
             size = n[0] * n[1] * n[2] * spec["nvdim"]
             vals = (np.arange(size, dtype=np.float64) * 0.75 - 2).reshape(*n, spec["nvdim"])
             f = df.Field(mesh, nvdim=spec["nvdim"], value=vals, vdims=spec["labels"], unit=spec["unit"])
@@ -624,6 +742,8 @@ def run_rt(case, obs, fail):
     rep, extend, nv = case["rep"], case["extend"], case["nvdim"]
     w = {"bin4": 4, "bin8": 8}.get(rep, 8)
     obs["field"] = ofield_json(f)
+    # -0.0 has no rational: the byte-for-byte comparison of the header is skipped for it
+    obs["negzero"] = bool(any(x == 0 and np.signbit(x) for x in list(f.mesh.region.pmin) + list(f.mesh.region.pmax)))
     want = np.array(f.array, copy=True)
     with tempfile.TemporaryDirectory(dir=TMPROOT) as d:
         path = os.path.join(d, "field" + case["ext"])
@@ -639,6 +759,7 @@ def run_rt(case, obs, fail):
         obs["side"] = json.load(open(side, encoding="utf-8")) if os.path.exists(side) else None
         if obs["write"] == "ok":
             raw = open(path, "rb").read()
+            obs["rawb"] = raw
             obs["file"], _ = structure(raw)
             st, g = read_file(path)
             obs["read"] = st
@@ -650,6 +771,7 @@ def run_rt(case, obs, fail):
                 with open(path, "wb") as fh:
                     fh.write(raw[:t])
                 obs["tfile"], _ = structure(raw[:t])
+                obs["trawb"] = raw[:t]
                 st2, g2 = read_file(path)
                 obs["tread"] = st2
                 if st2 == "ok":
@@ -743,6 +865,7 @@ def run_foreign(case, obs, fail):
     raw = write_foreign(c)
     w = case["w"] or 8
     obs["file"], _ = structure(raw)
+    obs["rawb"] = raw
     with tempfile.TemporaryDirectory(dir=TMPROOT) as d:
         path = os.path.join(d, "foreign" + case["ext"])
         open(path, "wb").write(raw)
@@ -789,12 +912,16 @@ def run_impl(case):
                         "geom:" + ("dyadic" if all(Fraction(x).denominator <= 2 ** 40 and Fraction(x).denominator & (Fraction(x).denominator - 1) == 0 and abs(Fraction(x).numerator) < 2 ** 20 for x in case["mesh"]["p1"]) else "float")]
         if kind == "trunc_rt":
             obs["nontrivial"] = True
+        if obs.get("write") == "ok":
+            obs["tags"].append("header-bytes:" + ("compared-exactly" if not obs.get("negzero") and exact_fmt_table(obs["field"]) is not None
+                                                  else "structure-only"))
     elif kind == "foreign":
         run_foreign(case, obs, fail)
         obs["tags"] += [f"ovf:{'2.0' if case['v2'] else '1.0'}", f"mode:{case['w']}", f"style:{case['style']}"]
     elif kind == "sample":
         raw = open(os.path.join(SAMPLE_DIR, case["name"]), "rb").read()
         obs["file"], _ = structure(raw)
+        obs["rawb"] = raw
         st, g = read_file(os.path.join(SAMPLE_DIR, case["name"]))
         obs["read"] = st
         words = next((l[1] for l in obs["file"]["lines"] if l[0] == "data"), ["?"])
@@ -841,6 +968,7 @@ def run_impl(case):
             obs["tags"].append("same-as-original")
             return obs
         obs["file"], _ = structure(mod)
+        obs["rawb"] = mod
         with tempfile.TemporaryDirectory(dir=TMPROOT) as d:
             path = os.path.join(d, "damaged.omf")
             open(path, "wb").write(mod)
@@ -872,6 +1000,13 @@ def run_impl(case):
             path = os.path.join(d, "sep.omf")
             f.to_file(path, representation=case["rep"])
             st, g = read_file(path)
+            raw = open(path, "rb").read()
+        # the byte-level model reads the same bytes: what the header loop keeps of a value with ':' or blanks
+        obs["rawb"] = raw
+        obs["file"], _ = structure(raw)
+        obs["read"] = st
+        if st == "ok":
+            obs["back"] = field_obs(g, {"bin4": 4, "bin8": 8}.get(case["rep"], 8))
         if case["labels"]:
             # labels are attribute names (field.<label>): punctuation other than '_' is outside the
             # property's reading; what happens is recorded, not flagged
@@ -1031,6 +1166,7 @@ def badfile_bytes(case):
 def run_badfile(case, obs, fail):
     raw = badfile_bytes(case)
     obs["file"], _ = structure(raw)
+    obs["rawb"] = raw
     with tempfile.TemporaryDirectory(dir=TMPROOT) as d:
         path = os.path.join(d, "bad.omf")
         open(path, "wb").write(raw)
@@ -1044,6 +1180,44 @@ def run_badfile(case, obs, fail):
 
 # =========================================================================== model side
 def model_requests(case, obs):
+    reqs = legacy_requests(case, obs)
+    reqs += byte_requests(case, obs, len(reqs))
+    return reqs
+
+
+def byte_requests(case, obs, base):
+    """requests for the byte-level model (lexBytes / fromOvfBytes / toOvfBytes); their positions and roles are
+    remembered in obs['_byte'] = [(index, role)]"""
+    kind, out, roles = case["kind"], [], []
+    if obs.get("skip") or "adapter-crash" in obs.get("tags", []) or "rawb" not in obs:
+        obs["_byte"] = []
+        return out
+
+    def add(req, role):
+        roles.append((base + len(out), role))
+        out.append(req)
+
+    raw = obs["rawb"]
+    side = None
+    if obs.get("side") is not None:
+        side = [dict(name=k, pmin=Qs(v["pmin"]), pmax=Qs(v["pmax"]), dims=v["dims"], units=v["units"],
+                     tol=Q(v["tolerance_factor"])) for k, v in obs["side"].items()]
+    add(readbytes_req(raw, obs["file"], side, obs.get("reserved", [])), "read")
+    if py_ws_safe(raw):
+        add(dict(op="lex", bytes=list(raw)), "lex")
+    if kind in ("rt", "trunc_rt"):
+        tab = None if obs.get("negzero") else exact_fmt_table(obs["field"])
+        if tab is not None:
+            add(dict(op="writebytes", field=obs["field"], rep=case["rep"], extend=case["extend"], floats=tab), "write")
+        if "trawb" in obs:
+            add(readbytes_req(obs["trawb"], obs["tfile"], None, []), "tread")
+            if py_ws_safe(obs["trawb"]):
+                add(dict(op="lex", bytes=list(obs["trawb"])), "tlex")
+    obs["_byte"] = roles
+    return out
+
+
+def legacy_requests(case, obs):
     kind = case["kind"]
     if obs.get("skip") or "adapter-crash" in obs.get("tags", []):
         return []
@@ -1181,7 +1355,58 @@ def cmp_content(name, got, want, dis, exact=True):
                 break
 
 
+def cmp_lex(name, raw, r, dis):
+    st, lx = lex_py(raw)
+    mst = "ok" if "ok" in r else "err"
+    if st != mst:
+        dis.append(f"{name}: header loop on bytes: python {st} ({lx if st == 'err' else ''}) vs model {mst}")
+    elif st == "ok":
+        m = r["ok"]
+        if m["first"] != lx["first"]:
+            dis.append(f"{name}: first line bytes differ")
+        if m["lines"] != lx["lines"]:
+            k = next((i for i, (a, b) in enumerate(zip(m["lines"], lx["lines"])) if a != b), min(len(m["lines"]), len(lx["lines"])))
+            dis.append(f"{name}: header line {k}: python {lx['lines'][k] if k < len(lx['lines']) else None} vs model "
+                       f"{m['lines'][k] if k < len(m['lines']) else None}")
+        if m["data"] != lx["data"]:
+            dis.append(f"{name}: data line: python {lx['data']} vs model {m['data']}")
+
+
+def compare_bytes(case, obs, rs, dis):
+    for idx, role in obs.get("_byte", []):
+        r = rs[idx]
+        if role == "read":
+            cmp_read("bytes of the file", obs, r, dis, text=("text" in obs["file"]["body"]))
+        elif role == "tread":
+            st2 = "ok" if "ok" in r else "err"
+            if st2 != obs["tread"]:
+                dis.append(f"truncated file (bytes): from_file {obs['tread']} vs model {st2}")
+        elif role == "lex":
+            cmp_lex("file", obs["rawb"], r, dis)
+        elif role == "tlex":
+            cmp_lex("truncated file", obs["trawb"], r, dis)
+        elif role == "write":
+            if "ok" not in r:
+                dis.append(f"to_file ok vs byte-level model writer {r}")
+                continue
+            raw, mb = obs["rawb"], r["ok"]
+            if case["rep"] == "txt":   # the model writes the header; pandas writes the rows
+                _, off = structure(raw)
+                raw = raw[:off]
+            if list(raw) != mb:
+                k = next((i for i, (x, y) in enumerate(zip(raw, mb)) if x != y), min(len(raw), len(mb)))
+                dis.append(f"written bytes differ from the model's at offset {k} of {len(raw)} (model {len(mb)} bytes): "
+                           f"file {bytes(raw[max(0, k - 20):k + 20])!r} vs model {bytes(mb[max(0, k - 20):k + 20])!r}")
+
+
 def compare(case, obs, rs):
+    dis = compare_legacy(case, obs, rs)
+    if not (obs.get("skip") or "adapter-crash" in obs.get("tags", [])):
+        compare_bytes(case, obs, rs, dis)
+    return dis
+
+
+def compare_legacy(case, obs, rs):
     kind, dis = case["kind"], []
     if obs.get("skip") or "adapter-crash" in obs.get("tags", []):
         return dis
@@ -1213,7 +1438,7 @@ def compare(case, obs, rs):
                     dis.append(f"truncated file: from_file {obs['tread']} vs model {st2}")
     elif kind == "foreign":
         cmp_read("foreign file", obs, rs[0], dis, text=(case["w"] == 0))
-        if len(rs) > 1:
+        if "content" in obs and case.get("shuffle") is None:
             mf = rs[1]["ok"]
             # the model's reference writer against the harness writer: same key/value set, same data bytes
             g = {l[1]: l[2] for l in obs["file"]["lines"] if l[0] == "kv"}
